@@ -690,12 +690,18 @@ fn convert_rpx_in_block(
                     | Token::SquareBracketBlock
                     | Token::ParenthesisBlock => {
                         let close = ss.append_nested_block(next.clone(), input);
-                        convert_rpx_in_block(input, ss, None);
+                        // parentheses inside `calc()` are still inside `calc()`
+                        let config = if in_calc {
+                            Some(ConvertOptions { in_calc: true })
+                        } else {
+                            None
+                        };
+                        convert_rpx_in_block(input, ss, config);
                         ss.append_nested_block_close(close, input);
                     }
                     Token::Function(func) => {
                         let func: &str = func;
-                        let config = if func == "calc" {
+                        let config = if func == "calc" || in_calc {
                             Some(ConvertOptions { in_calc: true })
                         } else {
                             None
